@@ -781,7 +781,9 @@ impl BlobStore for ZipOffsetBlobStore {
             (false, 0) => self.get_record_impl::<false, 0, false>(id),
             (false, 2) => self.get_record_impl::<false, 4, false>(id),
             (false, 3) => self.get_record_impl::<false, 4, false>(id),
-            _ => self.get_record_impl::<false, 0, false>(id),
+            // checksum level 1 stores no per-record checksum
+            (true, _) => self.get_record_impl::<true, 0, false>(id),
+            (false, _) => self.get_record_impl::<false, 0, false>(id),
         }
     }
 
